@@ -134,3 +134,83 @@ func VF_C05_pairs_c_quick() { c05Preempt = 2; c05Run(16, 100) }
 func VF_C05_pairs_a_thorough() { c05Preempt = 3; c05Run(0, 8) }
 func VF_C05_pairs_b_thorough() { c05Preempt = 3; c05Run(8, 16) }
 func VF_C05_pairs_c_thorough() { c05Preempt = 3; c05Run(16, 100) }
+
+// ---------------------------------------------------------------------------
+// Lock discipline behind per-key linearizability: every executor that reads or writes the value of a key
+// does so while holding that key's stripe. Checked by holding the stripe in the harness: the command must
+// not complete until the stripe is released (deterministic under gosx and natively).
+var c05StripeCases = [][]string{
+	{"get", "k"}, {"set", "k", "v"}, {"setnx", "k", "v"}, {"setex", "k", "10", "v"}, {"append", "k", "v"},
+	{"incr", "k"}, {"decr", "k"}, {"incrby", "k", "2"}, {"decrby", "k", "2"}, {"incrbyfloat", "k", "1.5"},
+	{"getrange", "k", "0", "1"}, {"setrange", "k", "0", "v"}, {"strlen", "k"}, {"mget", "k"}, {"mset", "k", "v"},
+	{"del", "k"}, {"exists", "k"}, {"expire", "k", "10"}, {"persist", "k"}, {"ttl", "k"}, {"type", "k"}, {"rename", "k", "j"},
+	{"lpush", "k", "v"}, {"rpush", "k", "v"}, {"lpop", "k"}, {"rpop", "k"}, {"llen", "k"}, {"lindex", "k", "0"},
+	{"lrange", "k", "0", "-1"}, {"lset", "k", "0", "v"}, {"lrem", "k", "0", "v"}, {"ltrim", "k", "0", "1"}, {"lpos", "k", "v"},
+	{"sadd", "k", "v"}, {"srem", "k", "v"}, {"scard", "k"}, {"smembers", "k"}, {"sismember", "k", "v"}, {"spop", "k"}, {"srandmember", "k"},
+	{"hset", "k", "f", "v"}, {"hget", "k", "f"}, {"hdel", "k", "f"}, {"hlen", "k"}, {"hgetall", "k"}, {"hincrby", "k", "f", "1"}, {"hexists", "k", "f"},
+	{"hsetnx", "k", "f", "v"}, {"hkeys", "k"}, {"hvals", "k"}, {"hmget", "k", "f"}, {"hstrlen", "k", "f"}, {"hrandfield", "k"},
+	{"zadd", "k", "1", "v"}, {"zrange", "k", "0", "-1"}, {"zrem", "k", "v"}, {"zrank", "k", "v"},
+	{"xadd", "k", "1-1", "f", "v"}, {"xrange", "k", "-", "+"},
+}
+
+func c05TakesStripe(lo, hi int) {
+	if hi > len(c05StripeCases) {
+		hi = len(c05StripeCases)
+	}
+	c := c05StripeCases[lo+vfChoice("case", hi-lo)]
+	m := hNewDb(2)
+	var args [][]byte
+	for _, a := range c {
+		args = append(args, bs(a))
+	}
+	m.locks.Lock("k")
+	done := false
+	vfSpawn(func() {
+		m.ExecCommand(context.Background(), args, nil)
+		done = true
+	})
+	vfSettle()
+	vfAssert(!done, c[0]+"-touches-the-key-without-its-stripe")
+	m.locks.UnLock("k")
+	vfSettle() // (TTL-setting commands leave a timer goroutine behind: wait for quiescence, not for every thread)
+	vfAssert(done, c[0]+"-completes-once-the-stripe-is-free")
+}
+
+func VF_C05_takes_stripe_a() { c05TakesStripe(0, 22) }
+func VF_C05_takes_stripe_b() { c05TakesStripe(22, 100) }
+
+// ---------------------------------------------------------------------------
+// A reply handed to a connection is encoded after the executor has released the key: it must not alias
+// storage that a later command of another client writes in place. Sequential form: take a reply, run a
+// write command, encode the reply again - it must be unchanged.
+func VF_C05_reply_stable() {
+	m := hNewDb(2)
+	ctx := context.Background()
+	v := vfBytes("v", 2, 3)
+	w := vfBytes("w", 1, 2)
+	hExec(m, bs("set"), bs("k"), v)
+	var read [][]byte
+	switch vfChoice("read", 3) {
+	case 0:
+		read = [][]byte{bs("get"), bs("k")}
+	case 1:
+		read = [][]byte{bs("getrange"), bs("k"), bs("0"), bs("-1")}
+	case 2:
+		read = [][]byte{bs("mget"), bs("k"), bs("nokey")}
+	}
+	r := m.ExecCommand(ctx, read, nil)
+	before := append([]byte(nil), r.ToBytes()...)
+	switch vfChoice("write", 5) {
+	case 0:
+		hExec(m, bs("setrange"), bs("k"), bs("0"), w)
+	case 1:
+		hExec(m, bs("setrange"), bs("k"), bs("1"), w[:1])
+	case 2:
+		hExec(m, bs("append"), bs("k"), w)
+	case 3:
+		hExec(m, bs("set"), bs("k"), w)
+	case 4:
+		hExec(m, bs("del"), bs("k"))
+	}
+	vfAssert(vfBytesEq(before, r.ToBytes()), "reply-changed-by-a-later-write")
+}
